@@ -1,3 +1,5 @@
+import Hcl.Proofs.NoPanicStages
+import Hcl.Theorems.C07
 import Hcl.Proofs.LexTotal
 import Hcl.Proofs.RegionTotal
 import Hcl.Generated
@@ -41,3 +43,24 @@ theorem C13_lookup_total (P U name : Bytes) (hP : Yo.validUtf8 P = true) (hU : Y
     ∃ n b nx, Io.lineNumberAndBounds (Io.newFromData P U name) t = .ok (n, b, nx) ∧ b ≤ t ∧ t ≤ nx :=
   let ⟨n, b, nx, h, h1, h2, _⟩ := Io.lineNumberAndBounds_total P U name hP hU t ht
   ⟨n, b, nx, h, h1, h2⟩
+
+/-- **program construction never reports an internal error**: whatever diagnostics the model of `Program::new`
+    returns — for every statement list with well-formed literals and widths, every flag set, every classification of
+    bank letters and every iteration order of the hash tables — none of them is `InternalPanic`, the model's image of
+    an `assert!`, an `unwrap()` on `None`, a `panic!` of the real code (which `parse_y86_hcl`'s `catch_unwind` would
+    report as "Internal parser error") -/
+theorem C13_construction_no_internal_error (fl : Flags) (cls : CharClass) (o : Orders) (stmts : List Stmt)
+    (ho : OrdersOK o) (hwf : StmtsWF stmts) (ds : List Diag)
+    (h : Program.new fl cls o y86FixedFunctions stmts = .error ds) : ∀ d ∈ ds, d.kind ≠ .InternalPanic :=
+  Program_new_np fl cls o stmts ho hwf ds h
+
+/-- and a rejection always carries at least one diagnostic kind from the documented list (never an empty report) is
+    sampled (S-TEXT: `errors=1`); acceptance, on the other hand, implies a run that cannot fail (C07_accepted). -/
+theorem C13_accepted_runs (fl : Flags) (cls : CharClass) (o : Orders) (stmts : List Stmt) (p : Program)
+    (ho : OrdersOK o) (hwf : StmtsWF stmts)
+    (h : Program.new fl cls o y86FixedFunctions stmts = .ok p) (mem : Mem) (hmem : mem.BytesOK) (n : Nat) :
+    ∃ s0, State.init p mem = .ok s0 ∧
+      ((∃ s', runN fl p n s0 = .ok s' ∧ s'.cycle = n) ∨ runN fl p n s0 = .error .divideByZero) :=
+  C07_accepted fl cls o stmts p ho hwf h mem hmem n
+
+#print axioms C13_construction_no_internal_error
